@@ -11,7 +11,7 @@ if [ ! -d "$WT" ]; then
   git -C /repo worktree add -q --detach "$WT" HEAD || exit 2
   cp /repo/Cargo.lock "$WT/"
 fi
-cd "$WT" && git checkout -q -- . && git clean -fdq -e target -e Cargo.lock
+cd "$WT" && git checkout -q -- . && git clean -fdq -e target -e Cargo.lock && git checkout -q --detach "$(git -C /repo rev-parse HEAD)"
 LOG=$(mktemp)
 ok=1
 git apply "$SRC/patch.diff" || { echo "$NAME: patch does not apply"; exit 1; }
